@@ -488,6 +488,9 @@ class Explorer:
             res["error"] = eager_err
         for mon in self.monitors:
             res.update(mon.finish() or {})
+        res["violations"] = list(self.violations)  # a monitor may report from finish() (whole-graph analyses)
+        res["violation_counts"] = dict(self.n_viol_by_sig)
+        res["vacuity"] = dict(self.vacuity)
         res["samples"] = self._samples()
         return res
 
